@@ -151,12 +151,118 @@ def unrolled(model: Model, fi: FuncInfo) -> FuncInfo:
     return out
 
 
+def _inline_returned_helpers(model: Model, fi: FuncInfo, body: List[ast.stmt]) -> Tuple[List[ast.stmt], bool]:
+    """every `return self._h(..)` statement of the body - at any nesting depth, it is a tail position wherever it
+    stands - replaced by the statements of the private, single-use helper _h"""
+    all_names = {x.id for st in body for x in ast.walk(st) if isinstance(x, ast.Name)} | set(fi.pos_params)
+    changed = False
+
+    def block(stmts: List[ast.stmt]) -> List[ast.stmt]:
+        nonlocal changed
+        out: List[ast.stmt] = []
+        for st in stmts:
+            if isinstance(st, ast.Return):
+                rep = _tail_helper_body(model, fi, [st], all_names)
+                if rep is not None:
+                    out.extend(rep)
+                    changed = True
+                    continue
+            if isinstance(st, (ast.If, ast.For, ast.While, ast.With, ast.Try)) and any(isinstance(x, ast.Return) and isinstance(x.value, ast.Call) for x in ast.walk(st)):
+                st2 = copy.copy(st)
+                for fld in ("body", "orelse", "finalbody"):
+                    if isinstance(getattr(st2, fld, None), list):
+                        setattr(st2, fld, block(getattr(st2, fld)))
+                if isinstance(st2, ast.Try):
+                    hs = []
+                    for h_ in st2.handlers:
+                        h2 = copy.copy(h_)
+                        h2.body = block(h_.body)
+                        hs.append(h2)
+                    st2.handlers = hs
+                out.append(st2)
+                continue
+            out.append(st)
+        return out
+
+    new = block(body)
+    return new, changed
+
+
+def _tail_helper_body(model: Model, fi: FuncInfo, body: List[ast.stmt], caller_names=None) -> Optional[List[ast.stmt]]:
+    """`...; return self._h(a, b)` where _h is a private helper called from nowhere else and a, b are locals: the
+    statements of _h with its parameters renamed to a, b (its other locals get a suffix when they would collide)."""
+    from .lib import call_sites_of
+
+    if not body or not isinstance(body[-1], ast.Return) or not isinstance(body[-1].value, ast.Call):
+        return None
+    call = body[-1].value
+    if call.keywords or not call.args or any(isinstance(a, ast.Starred) for a in call.args):
+        return None
+    got = _resolve_helper(model, fi, call)
+    if got is None:
+        return None
+    h, skip = got
+    if h is fi or isinstance(h.node, ast.Lambda) or not h.name.startswith("_") or h.name.startswith("__") or h.node.decorator_list:
+        return None
+    if len(call_sites_of(model, h)) != 1 or len(h.pos_params) - skip != len(call.args):
+        return None
+    a = h.node.args
+    if a.vararg or a.kwarg or a.kwonlyargs or a.defaults or a.posonlyargs:
+        return None
+    if any(isinstance(x, (ast.FunctionDef, ast.AsyncFunctionDef, ast.ClassDef, ast.Lambda, ast.Global, ast.Nonlocal, ast.Yield, ast.YieldFrom)) for st in h.node.body for x in ast.walk(st)):
+        return None
+    ren: Dict[str, str] = {}
+    if skip:
+        if not (isinstance(call.func, ast.Attribute) and isinstance(call.func.value, ast.Name)):
+            return None
+        ren[h.pos_params[0]] = call.func.value.id
+    pre: List[ast.stmt] = []
+    for p_, a_ in zip(h.pos_params[skip:], call.args):
+        if isinstance(a_, ast.Name):
+            ren[p_] = a_.id
+        else:
+            # an argument expression is evaluated once, before the helper's body: a temporary named after the parameter
+            tmp = f"{p_}_arg"
+            st_ = ast.Assign(targets=[ast.Name(id=tmp, ctx=ast.Store())], value=clone_ast(a_), type_comment=None)
+            ast.copy_location(st_, body[-1])
+            st_._fresh = True  # type: ignore
+            pre.append(st_)
+            ren[p_] = tmp
+    # a parameter of the helper must not be re-bound there (it would re-bind the caller's local: harmless, but keep it simple)
+    stores = {x.id for st in h.node.body for x in ast.walk(st) if isinstance(x, ast.Name) and isinstance(x.ctx, ast.Store)}
+    if stores & set(ren):
+        return None
+    caller_names = (caller_names or set()) | {x.id for st in body for x in ast.walk(st) if isinstance(x, ast.Name)} | set(fi.pos_params)
+    for loc in stores:
+        if loc in caller_names and loc not in ren:
+            ren[loc] = loc + "_h"
+
+    class _R(ast.NodeTransformer):
+        def visit_Name(self, n: ast.Name):
+            if n.id in ren:
+                return ast.copy_location(ast.Name(id=ren[n.id], ctx=n.ctx), n)
+            return n
+
+    hb = [st for st in h.node.body if not (isinstance(st, ast.Expr) and isinstance(st.value, ast.Constant) and isinstance(st.value.value, str))]
+    out = list(pre)
+    for st in hb:
+        c_ = _R().visit(clone_ast(st))
+        c_._fresh = True  # type: ignore
+        out.append(c_)
+    return out
+
+
 def _unroll(model: Model, fi: FuncInfo) -> FuncInfo:
     if isinstance(fi.node, ast.Lambda):
         return fi
     body = list(fi.node.body)
     new_body: List[ast.stmt] = []
     changed = False
+    for _ in range(2):
+        body, ch = _inline_returned_helpers(model, fi, body)
+        if not ch:
+            break
+        changed = True
     i = 0
     while i < len(body):
         s = body[i]
